@@ -208,7 +208,52 @@ def laws(F, k):
     L.eq(apply_vec(inv, apply_vec(a, v)), v)
     L.eq(apply_vec(a, apply_vec(inv, v)), v)
     out.append(L)
+    # ... and composing with it gives the identity transform (both orders)
+    L = CertLaw('dec%s_concat_inverse' % k, [('a', D), ('ri', Mn)])
+    a, ri = L.vars
+    for x, y in zip(g('mul')(a.rot.mat, ri).leaves(), g('identity')().leaves()):
+        L.require_eq(x, y)
+    for x, y in zip(g('mul')(ri, a.rot.mat).leaves(), g('identity')().leaves()):
+        L.require_eq(x, y)
+    L.require_nonzero(a.scale)
+    rs = R.lit(1) / a.scale
+    inv = D(rs, Bn(ri), gv('scale')(g('mulv')(ri, a.disp), -rs))
+    c1, c2, o = concat(a, inv), concat(inv, a), one()
+    for u_, v_ in ((c1, o), (c2, o)):
+        L.eq(u_.scale, v_.scale)
+        L.eq(u_.rot.mat, v_.rot.mat)
+        L.eq(u_.disp, v_.disp)
+    out.append(L)
     return out
+
+
+def handwritten_matrix_inverse(k):
+    """the matrix of the inverse transform is the inverse matrix (Basis-backed instantiations), composed from concat_inverse and matrix"""
+    n = INST[k]['n']
+    m = n + 1
+    return '''
+pub open spec fn decb_inverse_with(a: Decomposed<Vector{n}<Sc>, Basis{n}<Sc>>, ri: Matrix{n}<Sc>) -> Decomposed<Vector{n}<Sc>, Basis{n}<Sc>> {{
+    Decomposed {{ scale: s_div(s_one(), a.scale), rot: (Basis{n} {{ mat: ri }}), disp: v{n}_scale(m{n}_mulv(ri, a.disp), s_neg(s_div(s_one(), a.scale))) }}
+}}
+pub proof fn law_dec{k}_matrix_inverse(a: Decomposed<Vector{n}<Sc>, Basis{n}<Sc>>, ri: Matrix{n}<Sc>)
+    requires m{n}_mul(a.rot.mat, ri) == m{n}_identity(), m{n}_mul(ri, a.rot.mat) == m{n}_identity(), a.scale@ != 0real
+    ensures dec_concat(a, decb_inverse_with(a, ri)) == dec_one(),
+        dec_concat(decb_inverse_with(a, ri), a) == dec_one(),
+        m{m}_mul(dec_to_matrix(a), dec_to_matrix(decb_inverse_with(a, ri))) == m{m}_identity(),
+        m{m}_mul(dec_to_matrix(decb_inverse_with(a, ri)), dec_to_matrix(a)) == m{m}_identity(),
+{{
+    let inv = decb_inverse_with(a, ri);
+    law_dec{k}_concat_inverse(a, ri);
+    let (c1, c2, o) = (dec_concat(a, inv), dec_concat(inv, a), dec_one());
+    assert(c1.rot == o.rot);
+    assert(c2.rot == o.rot);
+    assert(c1 == o);
+    assert(c2 == o);
+    law_dec{k}_matrix(a, inv, a.disp);
+    law_dec{k}_matrix(inv, a, a.disp);
+    assert(dec_to_matrix(o) == m{m}_identity());
+}}
+'''.format(k=k, n=n, m=m)
 
 
 def laws_q(F):
@@ -308,4 +353,6 @@ pub proof fn law_decq_undo(a: Decomposed<Vector3<Sc>, Quaternion<Sc>>, p: Point3
     law_decb3_undo(dec_as_b3(a), ri, p, v);
 }
 ''')
+    import os
+    out.append(open(os.path.join(os.path.dirname(os.path.abspath(__file__)), 'handwritten', 'c08_q_laws.rs')).read())
     return out
